@@ -23,6 +23,7 @@ import (
 // C06: receive path - arbitrary frames never crash it and never yield phantom data.
 
 type c06Case struct {
+	Reuse  bool     `json:"frames_delivered_in_the_same_memory"`
 	Proc   string   `json:"processor"` // tcpflags | tcpsyn | icmp | arp
 	VPN    bool     `json:"vpn"`
 	Frames [][]byte `json:"frames"`
@@ -117,9 +118,18 @@ func c06Check(c c06Case) *kit.Verdict {
 	p := c06Processor(c, rc)
 	decodedPastLink, laterLacks := false, false
 	nrec := 0
+	// the zero-copy ring hands out the same memory again and again: with Reuse every frame is delivered in the same slot
+	// (whatever the processor kept pointing into an earlier frame now shows the current one)
+	slot := make([]byte, 4096)
+	if c.Reuse {
+		v.Label("reused-frame-memory")
+	}
 	for i, fr := range c.Frames {
 		// exact-capacity copy: reslicing past the frame panics instead of reading a neighbour
 		data := make([]byte, len(fr))
+		if c.Reuse && len(fr) <= len(slot) {
+			data = slot[:len(fr)]
+		}
 		copy(data, fr)
 		data = data[:len(data):len(data)]
 		rc.cur = i
@@ -198,6 +208,7 @@ func c06Gen(t *rapid.T) c06Case {
 	if c.Proc != "arp" {
 		c.VPN = rapid.Bool().Draw(t, "vpn")
 	}
+	c.Reuse = rapid.Bool().Draw(t, "reuse")
 	n := rapid.IntRange(1, 12).Draw(t, "nframes")
 	for i := 0; i < n; i++ {
 		fr, d := c06GenFrame(t, c.Proc, !c.VPN)
@@ -210,7 +221,7 @@ func c06Gen(t *rapid.T) c06Case {
 func TestC06Frames(t *testing.T) {
 	kit.Run(t, kit.Spec[c06Case]{
 		Prop: "C06",
-		Rule: "sequences of 1..12 frames fed to ONE processor instance (tcp flags / tcp syn / icmp(udp) / arp; Ethernet and raw-IP mode): each frame is a well-formed frame of a drawn kind (own protocol half of the time; else tcp/udp/icmp/arp/ipv6/vlan/IP-in-IP 1..3 levels/other protocol, with IP+TCP options; or a consistently built datagram that ends inside/before its transport header or is a non-first fragment, plain or nested in IP-in-IP) with 0..3 structural mutations applied at a drawn level of the IP-in-IP chain (truncate anywhere, IHL, total length, protocol, data offset, fragment bits, version, trailing garbage, bit flips, ARP sizes/types, ethertype, cut inside L4, random bytes), delivered in exact-capacity slices. Oracle (independent decoder): no panic, <=1 record per frame, a record only if THIS frame has the complete header chain and every record field equals this frame's bytes. non-trivial: a frame decoding past the link layer followed later by one lacking the transport header; distinct by case",
+		Rule: "sequences of 1..12 frames fed to ONE processor instance (tcp flags / tcp syn / icmp(udp) / arp; Ethernet and raw-IP mode): each frame is a well-formed frame of a drawn kind (own protocol half of the time; else tcp/udp/icmp/arp/ipv6/vlan/IP-in-IP 1..3 levels/other protocol, with IP+TCP options; or a consistently built datagram that ends inside/before its transport header or is a non-first fragment, plain or nested in IP-in-IP) with 0..3 structural mutations applied at a drawn level of the IP-in-IP chain (truncate anywhere, IHL, total length, protocol, data offset, fragment bits, version, trailing garbage, bit flips, ARP sizes/types, ethertype, cut inside L4, random bytes), delivered in exact-capacity slices, either each in fresh memory or all in the same memory slot (as the zero-copy ring does). Oracle (independent decoder): no panic, <=1 record per frame, a record only if THIS frame has the complete header chain and every record field equals this frame's bytes. non-trivial: a frame decoding past the link layer followed later by one lacking the transport header; distinct by case",
 		Gen:   c06Gen,
 		Check: c06Check,
 	})
